@@ -160,7 +160,7 @@ PROPS["C01"] = {
              "returns the unique cached region whose [start, stop) contains the key and nil otherwise (so hbase:meta is consulted, never "
              "a neighbour or a same-prefixed table); every single-row request kind is then given that region, that region's client, and "
              "carries that region's name in its RegionSpecifier."
-             " Also: two lookups at once return each caller its own region without racing (route_concurrent); 5..6 gets over two regions in every order are filed under their own region in the multi-request (multi_region_assignment); lookupAllRegions / CacheRegions list a table in hbase:meta and establish every region on its listed server (list_regions, cache_regions).",
+             " Also: two lookups at once return each caller its own region without racing (route_concurrent); 5..6 gets over two regions in every order are filed under their own region in the multi-request (multi_region_assignment); lookupAllRegions / CacheRegions list a table in hbase:meta and establish every region on its listed server (list_regions, cache_regions); tables of one namespace whose qualifiers end alike (n:t / n:xt) are kept apart (route_namespace_suffix).",
     "outside": "more than K cached regions; keys longer than KEYL bytes (in particular the 32 KiB search-key truncation); the protobuf wire "
                "encoding of the request structs (protobuf-go); the meta path is covered for one arbitrary meta row per lookup (meta_lookup)",
     "assumptions": ["cached regions do not overlap (C08 establishes that put preserves this)"],
@@ -170,6 +170,8 @@ PROPS["C01"] = {
         {"name": "route_from_cache_longkeys", "pkg": "root", "entry": "VerifRouteFromCache", "reach": ["hit", "miss"],
          "params": {"quick": {"K": 2, "KL": 2, "T": 1, "KEYL": 2}, "thorough": {"K": 2, "KL": 2, "T": 2, "KEYL": 3}}},
         {"name": "route_namespace_twin", "pkg": "root", "entry": "VerifRouteNamespaceTwin", "reach": ["hit", "miss"],
+         "params": {"quick": {"K": 1, "KL": 1, "T": 2, "KEYL": 1}, "thorough": {"K": 2, "KL": 1, "T": 2, "KEYL": 2}}},
+        {"name": "route_namespace_suffix", "pkg": "root", "entry": "VerifRouteNamespaceSuffix", "reach": ["hit", "miss"],
          "params": {"quick": {"K": 1, "KL": 1, "T": 2, "KEYL": 1}, "thorough": {"K": 2, "KL": 1, "T": 2, "KEYL": 2}}},
         {"name": "route_concurrent", "pkg": "root", "entry": "VerifRouteConcurrent", "reach": ["routed-concurrently"],
          "preempts": {"quick": 2, "thorough": 3}, "params": {"quick": {"RACE": 1}, "thorough": {"RACE": 1}}},
@@ -501,7 +503,7 @@ PROPS["C04"] = {
              "listing a replacement region or no table) followed by a stable cluster: the request returns success, or TableNotFound "
              "when the table was removed, never a retryable error; afterwards no live cached region is unavailable. Every recovery step "
              "of establishRegion is covered by the C09 establish job."
-             " Also: exceptions are classified by the class the server names, whatever the stack trace mentions; Get/Put/Delete/Append/Increment/CheckAndPut hand back what the server answered and an application error unchanged (public_api); every exit of establishRegion for scripts of 2..4 faults (establish_faults).",
+             " Also: exceptions are classified by the class the server names, whatever the stack trace mentions; Get/Put/Delete/Append/Increment/CheckAndPut hand back what the server answered and an application error unchanged (public_api); every exit of establishRegion for scripts of 2..4 faults (establish_faults); the action exceptions of one multi-response are classified each on its own, e.g. a log-is-closed IOException next to a plain IOException in either order (classify_in_multi).",
     "outside": "NOT CLAIMED: the liveness statement for arbitrary finite fault sequences (only scripts of up to FAULTS faults are "
                "explored); administrative calls when the master moves; classification of exception class names (checked at the "
                "region level in C11's receive jobs for the listed classes)",
@@ -518,6 +520,8 @@ PROPS["C04"] = {
          "preempts": {"quick": 1, "thorough": 2}, "params": {"quick": {"RACE": 1, "FAULTS": 1, "BUSY": 1, "SAME": 0, "RACE": 1}, "thorough": {"RACE": 1, "FAULTS": 1, "BUSY": 1, "SAME": 0, "RACE": 1}}},
         {"name": "classify_exception", "pkg": "region", "entry": "VerifClassify", "reach": ["retry-later", "region", "server", "other"],
          "params": {"quick": {"L": 70}, "thorough": {"L": 90}}},
+        {"name": "classify_in_multi", "pkg": "region", "entry": "VerifClassifyInMulti", "stubs": RECV_STUBS, "reach": ["classified-in-multi"],
+         "params": {"quick": {"protoMax": 1, "protoFixed": 1}, "thorough": {"protoMax": 1, "protoFixed": 1}}},
         {"name": "region_moved", "steps": 40000, "pkg": "root", "entry": "VerifRegionMoved", "stubs": EST_STUBS, "reach": ["moved"],
          "params": {"quick": {"FAULTS": 0, "STALE": 2}, "thorough": {"FAULTS": 0, "STALE": 4}}},
     ],
